@@ -602,6 +602,15 @@ func runC18(rc *RunCtx) {
 	}
 	for i := 0; i < 2; i++ {
 		e := sdk.AccAddress([]byte(fmt.Sprintf("c18-external-addr-%02d", i))).String()
+		if i == 1 {
+			// a valid 32-byte address whose bech32 text starts with the complete bech32 text of one of the accounts
+			// (its 20 bytes, then the 30 bits that spell that account's checksum characters, then zeros): a different
+			// inbox, whose store keys begin with the text of the shorter address
+			if x, ok := c18PrefixExtension(c.Accs[rc.Intn(4)].Bech); ok {
+				e = x
+				rc.Count("prefix_extension_addresses", 1)
+			}
+		}
 		s.universe = append(s.universe, e)
 		s.label[e] = fmt.Sprintf("ext%d", i)
 	}
@@ -825,4 +834,48 @@ func spelling(used, canonical string) string {
 		return "canonical"
 	}
 	return "UPPER-CASE"
+}
+
+// c18PrefixExtension returns a valid account address (32 bytes) whose bech32 text has `addr` as a strict prefix.
+func c18PrefixExtension(addr string) (string, bool) {
+	const charset = "qpzry9x8gf2tvdw0s3jn54khce6mua7l"
+	i := strings.LastIndex(addr, "1")
+	if i < 0 {
+		return "", false
+	}
+	var groups []byte
+	for _, ch := range addr[i+1:] {
+		v := strings.IndexRune(charset, ch)
+		if v < 0 {
+			return "", false
+		}
+		groups = append(groups, byte(v))
+	}
+	for len(groups)*5 < 256 {
+		groups = append(groups, 0)
+	}
+	// 52 groups of 5 bits = 260 bits: the first 256 are the address, the last 4 (zero) are bech32 padding
+	var bz []byte
+	acc, nbits := 0, 0
+	for _, g := range groups {
+		acc = acc<<5 | int(g)
+		nbits += 5
+		for nbits >= 8 {
+			nbits -= 8
+			bz = append(bz, byte(acc>>nbits))
+			acc &= (1 << nbits) - 1
+		}
+	}
+	if len(bz) < 32 {
+		return "", false
+	}
+	bz = bz[:32]
+	out := sdk.AccAddress(bz).String()
+	if !strings.HasPrefix(out, addr) || out == addr {
+		return "", false
+	}
+	if _, err := sdk.AccAddressFromBech32(out); err != nil {
+		return "", false
+	}
+	return out, true
 }
